@@ -9,21 +9,27 @@ def main():
     res = json.load(open(os.path.join(HERE, 'seeded', 'RESULTS.json')))
     rows = ['| seed | change | caught by | replayed natively | first failed obligation |', '|---|---|---|---|---|']
     missed = []
+    stale = []
     for sid in sorted(res):
         mp = os.path.join(HERE, 'seeded', sid, 'meta.json')
         if not os.path.exists(mp):
             continue
         meta = json.load(open(mp))
         hits = [(c, r) for c, r in sorted(res[sid].items()) if r['exit'] == 1 and r['violation_lines'] > 0]
-        if not hits:
+        if meta.get('stale_at_head'):
+            # written and caught against an earlier HEAD of /repo; a later fix commit removed the mechanism: on the final HEAD the patched
+            # tree passes the seed's own demo, and the check passes on it too (the row shows the outcome at the HEAD it was written for)
+            stale.append(sid)
+        elif not hits:
             missed.append(sid)
         own = [h for h in hits if h[0] == meta.get('property', sid.split('-')[0])]
         first = (own or hits or [(None, dict(first='(not caught)', replayed_natively=0))])[0]
         rows.append('| %s | %s | %s | %s | `%s` |' % (
-            sid, meta['summary'][:110].replace('|', '/').replace('\n', ' '), ', '.join(c for c, _ in hits) or '**missed**',
+            sid + (' (stale)' if meta.get('stale_at_head') else ''), meta['summary'][:110].replace('|', '/').replace('\n', ' '), ', '.join(c for c, _ in hits) or '**missed**',
             'yes' if any(r['replayed_natively'] for _, r in hits) else 'no',
             first[1]['first'][:90].replace('|', '/').replace(' no-failing-input-found', '')))
-    text = '\n'.join(rows) + '\n\n%d seeded changes, %d caught%s.\n' % (len(rows) - 2, len(rows) - 2 - len(missed), (' (missed: %s)' % ', '.join(missed)) if missed else '')
+    text = '\n'.join(rows) + '\n\n%d seeded changes, %d caught%s%s.\n' % (len(rows) - 2, len(rows) - 2 - len(missed), (' (missed: %s)' % ', '.join(missed)) if missed else '',
+                                                                          ('; %d of them (%s) are stale on the final HEAD of /repo -- a later fix removed the mechanism they used: the patched tree passes the seed\'s own demo and the check alike (reason in each meta.json)' % (len(stale), ', '.join(stale))) if stale else '')
     if '--write' in sys.argv:
         p = os.path.join(HERE, 'DESIGN.md')
         s = open(p).read()
